@@ -17,7 +17,9 @@ Model of /repo/crypt.go.  Core Lean only.
   implements (`c_i = p_i ⊕ E c_{i-1}`, `c_{-1} = iv`, a final partial block is XORed with a
   prefix of `E c_last`).
 * the shells of salsa20 (first 8 bytes = nonce, copied; rest XOR keystream(nonce)), simple XOR
-  (fixed table) and none (copy).
+  (fixed table) and none (copy); the capacity test of the AEAD wrapper.
+* not modelled: the ciphers themselves, the two mutexes of `blockCrypt` and which `cipher.Block`
+  value each direction uses (concurrency: C14 and the Go-side oracle `concurrent-callers-*`).
 -/
 import KcpVerif.Generated
 
